@@ -267,6 +267,16 @@ class ExprMixin:
         tyb = b.ty if isinstance(b, SV) else None
         if isinstance(tya, TVal) or isinstance(tyb, TVal):
             return self.val_order(op, a, b, fr, node)
+        if isinstance(b, Box) and b.kind == 'set' and b.from_seq is not None and isinstance(op, ast.LtE):
+            # A <= set(seq):  every member of A occurs in seq  (no lambda-defined set needed)
+            ety = b.elem
+            ta = self.term(a, TSet(ety))
+            x = z3.Const('member!m', ety.z3sort())
+            return z3.ForAll([x], z3.Implies(z3.IsMember(x, ta), z3.Contains(b.from_seq, z3.Unit(x))),
+                             patterns=[z3.IsMember(x, ta)])
+        if isinstance(b, Box) and b.kind == 'set' and b.term is None and not b.items and isinstance(op, ast.LtE):
+            ta = self.term(a)
+            return ta == z3.EmptySet(ta.sort().domain())
         if isinstance(tya, TSet) or isinstance(tyb, TSet):
             ta, tb = self.term(a, tyb or tya), self.term(b, tya or tyb)
             if isinstance(op, ast.LtE):
